@@ -243,6 +243,7 @@ func selftestConformance(args []string) error {
 			}
 			var e1, e2 error
 			var d1, d2 string
+			m := ""
 			op := rng.Intn(8)
 			switch op {
 			case 0:
@@ -272,7 +273,10 @@ func selftestConformance(args []string) error {
 				e1 = simrt.Remove(sp)
 				e2 = os.Remove(rp)
 			case 6:
-				m := rng.Pick(names)
+				m = rng.Pick(names)
+				if path.Clean(m) == path.Clean(n) {
+					continue // renaming a path onto itself: Go's textual special cases are not modelled
+				}
 				e1 = simrt.Rename(sp, path.Join("/r", m))
 				e2 = os.Rename(rp, filepath.Join(real, m))
 			case 7:
@@ -294,9 +298,41 @@ func selftestConformance(args []string) error {
 				simrt.W = nil
 				goto nextSeq
 			}
+			if op == 6 && c1 != "ok" && c2 != "ok" {
+				// both refuse: which of two failing conditions the kernel reports first is not modelled
+				continue
+			}
+			if c1 == c2 && d1 == d2 {
+				// the whole trees must agree after every step
+				want := []string{}
+				filepath.WalkDir(real, func(p string, d fs.DirEntry, err error) error {
+					if err != nil || p == real {
+						return nil
+					}
+					rel, _ := filepath.Rel(real, p)
+					k := "f"
+					if d.IsDir() {
+						k = "d"
+					}
+					want = append(want, k+":/r/"+rel)
+					return nil
+				})
+				got := []string{}
+				for _, x := range imagePaths(w) {
+					if x != "d:/r" {
+						got = append(got, x)
+					}
+				}
+				sort.Strings(want)
+				sort.Strings(got)
+				if strings.Join(want, " ") != strings.Join(got, " ") {
+					simrt.W = nil
+					return machinery("MemFS conformance: sequence %d step %d op %d on %q (-> %q) both %s, but trees differ: MemFS %v, kernel %v", s, k, op, n, m, c1, got, want)
+				}
+			}
 			if c1 != c2 || d1 != d2 {
 				simrt.W = nil
-				return machinery("MemFS conformance: sequence %d step %d op %d on %q: MemFS %s %q, kernel %s %q", s, k, op, n, c1, d1, c2, d2)
+				return machinery("MemFS conformance: sequence %d step %d op %d on %q (-> %q): MemFS %s %q, kernel %s %q; image %v", s, k, op, n, m, c1, d1, c2, d2, imagePaths(w))
 			}
 		}
 	nextSeq:
@@ -304,6 +340,18 @@ func selftestConformance(args []string) error {
 	}
 	fmt.Printf("selftest conformance: %d sequences, %d steps compared MemFS vs kernel: identical\n", seqs, steps)
 	return nil
+}
+
+func imagePaths(w *simrt.World) []string {
+	out := []string{}
+	for _, f := range w.Image() {
+		k := "f"
+		if f.Dir {
+			k = "d"
+		}
+		out = append(out, k+":"+f.Path)
+	}
+	return out
 }
 
 func sizeIfFile(i fs.FileInfo) int64 {
